@@ -461,6 +461,8 @@ def transforms(rng, g):
     out.append(('translate', map_pts(g, lambda p: (p[0] + dx, p[1] + dy))))
     out.append(('reflect_x', map_pts(g, lambda p: (-p[0], p[1]))))
     out.append(('swap_xy', map_pts(g, lambda p: (p[1], p[0]))))
+    out.append(('reflect_y', map_pts(g, lambda p: (p[0], -p[1]))))
+    out.append(('rot90', map_pts(g, lambda p: (-p[1], p[0]))))
     if g[0] in ('PG', 'MPG', 'LR'):
         out.append(('rotate_rings', map_rings(g, lambda r: rot_ring(r, rng.randint(1, 5)), lambda p: p)))
     if g[0] not in ('PT', 'MPT'):
@@ -649,6 +651,11 @@ def known_key(kind, g, m, im):
     if kind == 'verdict1' and m['valid'][1] and not m['valid'][0] and 6 in m['sets'][0] \
             and im['D'][1]['msg'] == 'Interior is disconnected' and g[0] in ('PG', 'MPG', 'GC'):
         return 'selftouch-ring-plus-touching-ring'
+    # C05-F3: with the flag, the side of a self-touch is taken from Orientation::isCCW, which depends on the ring start for a
+    # self-touching ring: a pinched ring (rule 4 at its self-touch, nothing else broken) is accepted for some starts
+    if kind == 'verdict1' and not m['valid'][1] and set(m['sets'][1]) == {4} and im['D'][1]['ok'] == '1' and 6 in m['sets'][0] \
+            and all(q in m['sets'][0][6] for q in m['sets'][1][4]):
+        return 'selftouch-orientation-depends-on-ring-start'
     if kind in ('rule0', 'rule1'):
         flag = int(kind[-1])
         code = MSG_CODE.get(im['D'][flag]['msg'])
@@ -833,6 +840,138 @@ def gen_elements_in_holes(rng):
     return map_pts(('MPG', polys), lambda p: (s * f(p)[0] + dx, s * f(p)[1] + dy))
 
 
+
+# ------------------------------------------------------------------ single defects among innocent holes / elements
+def seg_hit(a, b, c, d):
+    """closed segments ab, cd have a common point (exact)"""
+    o1, o2, o3, o4 = cross(a, b, c), cross(a, b, d), cross(c, d, a), cross(c, d, b)
+    if ((o1 > 0) != (o2 > 0) or o1 == 0 or o2 == 0) and ((o3 > 0) != (o4 > 0) or o3 == 0 or o4 == 0):
+        if o1 == o2 == o3 == o4 == 0:
+            return max(min(a[0], b[0]), min(c[0], d[0])) <= min(max(a[0], b[0]), max(c[0], d[0])) and \
+                max(min(a[1], b[1]), min(c[1], d[1])) <= min(max(a[1], b[1]), max(c[1], d[1]))
+        return (o1 == 0 or o2 == 0 or (o1 > 0) != (o2 > 0)) and (o3 == 0 or o4 == 0 or (o3 > 0) != (o4 > 0))
+    return False
+
+
+def strictly_in(q, r):
+    """q strictly inside ring r (construction helper only; labels are decided by the specification)"""
+    ins = False
+    for a, b in zip(r[:-1], r[1:]):
+        if cross(a, b, q) == 0 and min(a[0], b[0]) <= q[0] <= max(a[0], b[0]) and min(a[1], b[1]) <= q[1] <= max(a[1], b[1]): return False
+        if (a[1] > q[1]) != (b[1] > q[1]):
+            up = b[1] > a[1]
+            if (cross(a, b, q) > 0) == up: ins = not ins
+    return ins
+
+
+def rings_apart(r1, r2):
+    if any(seg_hit(a, b, c, d) for a, b in zip(r1[:-1], r1[1:]) for c, d in zip(r2[:-1], r2[1:])): return False
+    return not strictly_in(r1[0], r2) and not strictly_in(r2[0], r1)
+
+
+def innocent_holes(rng, R, k):
+    """k pairwise disjoint non-rectangular holes in (0,R)^2 whose bounding boxes are free to overlap: thin triangles, convex
+    polygons, L shapes"""
+    hs = []
+    for _ in range(12 * k):
+        if len(hs) >= k: break
+        c = rng.random()
+        if c < 0.55:
+            pts = [(rng.randint(1, R - 1), rng.randint(1, R - 1)) for _ in range(3)]
+            if cross(*pts) == 0: continue
+            h = close(pts)
+        elif c < 0.8:
+            h = gen_convex(rng, rng.randint(3, 6), rng.choice([6, 10, 16]))
+            if not h: continue
+            dx, dy = rng.randint(1, R - 17), rng.randint(1, R - 17)
+            h = [(p[0] + dx, p[1] + dy) for p in h]
+        else:
+            t = rng.choice([2, 3]); dx, dy = rng.randint(1, R - 6 * t - 1), rng.randint(1, R - 6 * t - 1)
+            h = [(p[0] + dx, p[1] + dy) for p in [(0, 0), (6 * t, 0), (6 * t, 2 * t), (2 * t, 2 * t), (2 * t, 6 * t), (0, 6 * t), (0, 0)]]
+        if rng.random() < 0.5: h = h[::-1]
+        if all(0 < p[0] < R and 0 < p[1] < R for p in h) and all(rings_apart(h, o) for o in hs): hs.append(h)
+    return hs
+
+
+def convex_ring(r):
+    c = r[:-1]; n = len(c)
+    sg = [cross(c[i], c[(i + 1) % n], c[(i + 2) % n]) for i in range(n)]
+    return all(x > 0 for x in sg) or all(x < 0 for x in sg)
+
+
+def gen_single_defect(rng):
+    """a polygon with several innocent holes (then scaled by 12 so that centroids and half-way points are lattice points) and exactly
+    one intended defect; returns (label, intended rule, geometry). Some draws are controls without any defect."""
+    R = rng.choice([24, 36, 48])
+    hs = innocent_holes(rng, R, rng.randint(2, 5))
+    if len(hs) < 2: return None
+    K = 12
+    hs = [[(K * p[0], K * p[1]) for p in h] for h in hs]
+    shell = square(-K, -K, K * R + K, K * R + K)
+    def half(o, c): return [((p[0] + c[0]) // 2, (p[1] + c[1]) // 2) for p in o]
+    def free_triangle(rings_in, rings_out, size):
+        for _ in range(60):
+            q = (rng.randint(0, K * R), rng.randint(0, K * R)); tri = [q, (q[0] + size, q[1]), (q[0], q[1] + size), q]
+            if all(all(strictly_in(v, r) for v in tri[:-1]) for r in rings_in) and all(rings_apart(tri, r) for r in rings_out): return tri
+        return None
+    kind = rng.choice(['nested_half', 'nested_half', 'nested_half', 'nested_vertex', 'nested_tiny', 'hole_out', 'holes_overlap', 'hole_bowtie',
+                       'hole_too_few', 'hole_unclosed', 'hole_dup', 'nested_shell', 'defect_in_other_element', 'control', 'control'])
+    g = None; intended = 'valid'
+    if kind in ('nested_half', 'nested_vertex'):
+        cand = [h for h in hs if convex_ring(h)]
+        if not cand: return None
+        o = rng.choice(cand)
+        c = ((o[0][0] + o[1][0] + o[2][0]) // 3, (o[0][1] + o[1][1] + o[2][1]) // 3) if kind == 'nested_half' else rng.choice(o[:-1])
+        i_ = half(o, c)
+        if rng.random() < 0.5: i_ = i_[::-1]
+        g = ('PG', [shell] + hs + [i_]); intended = 'RNestedHoles'
+    elif kind == 'nested_tiny':
+        o = rng.choice(hs); tri = free_triangle([o], [], rng.choice([1, 2, 5]))
+        if not tri: return None
+        g = ('PG', [shell] + hs + [tri]); intended = 'RNestedHoles'
+    elif kind == 'hole_out':
+        j = rng.randrange(len(hs)); d = K * R + 3 * K
+        hs2 = list(hs); hs2[j] = [(p[0] + d, p[1]) for p in hs[j]]
+        g = ('PG', [shell] + hs2); intended = 'RHoleOutsideShell'
+    elif kind == 'holes_overlap':
+        j = rng.randrange(len(hs)); o = hs[(j + 1) % len(hs)]
+        d = (o[0][0] - hs[j][1][0], o[0][1] - hs[j][1][1])
+        hs2 = list(hs); hs2[j] = [(p[0] + d[0], p[1] + d[1]) for p in hs[j]]
+        g = ('PG', [shell] + hs2); intended = None
+    elif kind == 'hole_bowtie':
+        cand = [j for j, h in enumerate(hs) if len(h) >= 5 and convex_ring(h)]
+        if not cand: return None
+        j = rng.choice(cand); h = list(hs[j]); h[1], h[2] = h[2], h[1]
+        hs2 = list(hs); hs2[j] = h
+        g = ('PG', [shell] + hs2); intended = 'RSelfIntersection'
+    elif kind == 'hole_too_few':
+        j = rng.randrange(len(hs)); hs2 = list(hs); hs2[j] = [hs[j][0], hs[j][0], hs[j][0], hs[j][0]]
+        g = ('PG', [shell] + hs2); intended = 'RTooFewPoints'
+    elif kind == 'hole_unclosed':
+        j = rng.randrange(len(hs)); hs2 = list(hs); hs2[j] = hs[j][:-1]
+        g = ('PG', [shell] + hs2); intended = 'RRingNotClosed'
+    elif kind == 'hole_dup':
+        g = ('PG', [shell] + hs + [list(rng.choice(hs))]); intended = 'RSelfIntersection'
+    elif kind == 'nested_shell':
+        tri = free_triangle([shell], hs, rng.choice([1, 2, 6, 12]))
+        if not tri: return None
+        g = ('MPG', [[shell] + hs, [tri]]); intended = 'RNestedShells'
+    elif kind == 'defect_in_other_element':
+        sub = gen_single_defect(rng)
+        if not sub or sub[2][0] != 'PG': return None
+        d = K * R + 4 * K
+        g = ('MPG', [[shell] + hs, [[(p[0] + d, p[1] + d) for p in r] for r in sub[2][1]]]); intended = sub[1]
+    else:
+        g = ('PG', [shell] + hs)
+        if rng.random() < 0.5:      # an element inside a hole is legal
+            o = rng.choice(hs); tri = free_triangle([o], [], rng.choice([1, 3]))
+            if tri: g = ('MPG', [[shell] + hs, [tri]])
+    if g[0] == 'PG' and rng.random() < 0.7:
+        sh, holes = g[1][0], g[1][1:]; rng.shuffle(holes); g = ('PG', [sh] + holes)
+    f = rng.choice(D4); dx, dy = rng.randint(-2000, 2000), rng.randint(-2000, 2000)
+    return ('single:' + kind, intended, map_pts(g, lambda p: (f(p)[0] + dx, f(p)[1] + dy)))
+
+
 # ------------------------------------------------------------------ case generation
 def gen_cases(ctx, runner, n_target):
     rng = ctx.rng
@@ -919,8 +1058,13 @@ def gen_cases(ctx, runner, n_target):
             cx, cy, rr = rng.choice([2, 4, 6, 8, 10]), rng.choice([2, 4, 6, 8, 10]), rng.choice([1, 2, 2, 3])
             hs.append(rng.choice([diamond(cx, cy, rr), square(cx - rr, cy - rr, cx + rr, cy + rr), [(cx - rr, cy - rr), (cx + rr, cy - rr), (cx, cy + rr), (cx - rr, cy - rr)]]))
         add('coarse_holes', None, ('PG', [square(0, 0, N, N)] + hs))
+    # exactly one intended defect among several innocent non-rectangular holes / elements; all derived copies are generated
+    for _ in range(2 * n_each):
+        sd = gen_single_defect(rng)
+        if sd is not None and constructible(sd[2]) and in_bounds(sd[2]):
+            cases.append(dict(label=sd[0], intended=sd[1], g=sd[2], derive_all=True))
     # elements inside holes of other elements (holes with overlapping / nested envelopes); all derived copies are generated
-    for _ in range(3 * n_each):
+    for _ in range(2 * n_each):
         g = gen_elements_in_holes(rng)
         if g is not None and constructible(g) and in_bounds(g):
             cases.append(dict(label='elements_in_holes', intended=None, g=g, derive_all=True))
@@ -950,7 +1094,7 @@ def run(ctx):
         return replay(ctx, runner)
     cases = []
     corpus = os.path.join(ROOT, 'gen/corpus/C05.txt')
-    if os.path.exists(corpus):
+    if os.path.exists(corpus) and not os.environ.get('C05_NO_CORPUS'):      # C05_NO_CORPUS=1: generators only (used to confirm seeded changes)
         for l in open(corpus):
             l = l.strip()
             if l and not l.startswith('#'):
@@ -973,6 +1117,7 @@ def run(ctx):
     dist = {'labels': {}, 'model_rules': {}, 'intended_vs_model': {}, 'types': {}, 'valid': {'valid0': 0, 'invalid0': 0, 'valid1_only': 0}, 'simple': {'simple': 0, 'nonsimple': 0},
             'reported_codes': {}}
     viol = 0
+    known_idx = {}
     for idx, (c, e, m, im) in enumerate(zip(cases, exps, ms, ims)):
         g = c['g']
         bad = compare(g, e, m, im)
@@ -1019,7 +1164,10 @@ def run(ctx):
         if not bad: continue
         kinds = [k for k, _ in bad]
         kk = m and im and next((known_key(k, g, m, im) for k in kinds if known_key(k, g, m, im)), None)
+        if not kk and kinds == ['invariance'] and c.get('parent') in known_idx:
+            kk = known_idx[c['parent']]      # the parent's answer was the known wrong one; this copy is answered correctly
         if kk:
+            known_idx[idx] = kk
             ent = ctx.known_match(lambda f: f.get('key', {}).get('class') == kk)
             if ent:
                 ctx.known_hit(ent)
